@@ -905,7 +905,10 @@ class Interp:
                     self.store(dest, res)
                 self.goto(f, nxt)
                 return None
-            if len(m.frames) < self.max_depth and self.inline_filter(target) and not self.no_inline(target):
+            # a function that is already being evaluated on this path is not entered again (a recursive helper walking the subtree would be unrolled
+            # until the step limit): its result is unknown, like that of any function the evaluator does not enter
+            recursive = target.def_kind != 'Closure' and sum(1 for fr in m.frames if fr.body.id == target.id) >= 1
+            if len(m.frames) < self.max_depth and self.inline_filter(target) and not self.no_inline(target) and not recursive:
                 return self.enter(m, f, t, target, args, dest, nxt, is_fn_trait)
             # not inlined: result unknown, &mut arguments havocked
             self.havoc(args)
@@ -1177,6 +1180,12 @@ class Interp:
                 if st.get('k') == 'param' and f.subst.get(st['idx']) is not None:
                     tname = grammar.ast_type_name(f.subst[st['idx']])
             is_is = path.endswith('::is')
+            if (n is None or n.kind is None) and tname in g['kinds_of'] and getattr(self, 'unknown_node_kinds', None) is not None \
+                    and not (set(g['kinds_of'][tname]) & self.unknown_node_kinds):
+                # evaluation in a known syntactic mode: a node the evaluator knows nothing about (a descendant reached through an unmodelled helper)
+                # is still a node of that mode - in math it is no `Ident`, `Int`, .. (those occur only directly after `#`, which the printer converts in
+                # code mode; that correlation is what C13.R5 checks)
+                return Const(False) if is_is else Agg('core::option::Option', 'None', [])
             if n is None or n.kind is None or tname is None or tname not in g['kinds_of']:
                 if is_is:
                     return TOP
@@ -1240,6 +1249,11 @@ class Interp:
                     res = x.variant == y.variant
                 elif isinstance(x, Agg) and isinstance(y, Agg) and x.adt == y.adt and x.variant and y.variant and x.variant != y.variant:
                     res = False
+                elif isinstance(x, Agg) and isinstance(y, Agg) and x.adt == y.adt and x.variant and x.variant == y.variant and len(x.fields) == len(y.fields) == 1:
+                    # Some(a) == Some(b) (Option<SyntaxKind>, Option<bool>, ..): structural on a known payload
+                    a_, b_ = deref(x.fields[0]), deref(y.fields[0])
+                    if (isinstance(a_, Kind) and isinstance(b_, Kind)) or (isinstance(a_, Const) and isinstance(b_, Const)):
+                        res = a_ == b_
                 if res is not None:
                     return Const(res if last == 'eq' else not res)
             return TOP
@@ -1387,6 +1401,26 @@ class Interp:
             self.store(a0, y)
             self.store(args[1], x)
             return NOTHING_VAL
+        # --- Option helpers: an unknown receiver of a closure-taking combinator is explored as Some(unknown) and as None (so that the closure's
+        #     conversions are seen: `opt.map(|c| self.convert_a(c)).unwrap_or(self.convert_b())`)
+        if path.startswith('std::option::Option::<T>::') and last in ('map', 'and_then', 'unwrap_or_else', 'or_else', 'is_some_and', 'is_none_or', 'filter', 'map_or') \
+                and not (isinstance(a0d, Agg) and a0d.adt.endswith('Option')) and not getattr(self, '_in_opt_fork', False) \
+                and any(isinstance(deref(a), Agg) and deref(a).adt.startswith('closure:') for a in args[1:]):
+            m_none = fork(m)
+            outs = []
+            self._in_opt_fork = True
+            try:
+                for mm, recv in ((m, Agg('core::option::Option', 'Some', [Top('payload of ' + path.rsplit('::', 1)[-1])])), (m_none, Agg('core::option::Option', 'None', []))):
+                    ff = mm.frames[-1]
+                    a2 = [recv] + [self.eval_operand(mm, ff, a) for a in t['args'][1:]]
+                    val = self.model_extern(mm, ff, path, rpath, a2, t)
+                    if isinstance(val, list):
+                        outs.extend(val)
+                    else:
+                        outs.append((mm, val))
+            finally:
+                self._in_opt_fork = False
+            return outs
         # --- Option helpers with constant receivers
         if path.startswith('std::option::Option::<T>::'):
             x = a0d
@@ -1401,6 +1435,20 @@ class Interp:
                     return deref(args[1])
                 if last in ('map', 'and_then', 'is_some_and', 'filter', 'is_none_or'):
                     return self.option_hof(m, f, t, last, x, args)
+                if last in ('or_else', 'or') and x.variant == 'Some':
+                    return x
+                if last == 'or' and x.variant == 'None' and len(args) > 1:
+                    return deref(args[1])
+                if last == 'or_else' and x.variant == 'None':
+                    # runs the closure (no argument); its result (an Option) is the value
+                    some = self.option_hof(m, f, t, 'map', Agg('core::option::Option', 'Some', [NOTHING_VAL]), args, unit_arg=True)
+                    if isinstance(some, Agg) and some.variant == 'Some':
+                        return some.fields[0]
+                    return TOP
+                if last == 'flatten' and x.variant == 'Some' and isinstance(x.fields[0], Agg) and x.fields[0].adt.endswith('Option'):
+                    return x.fields[0]
+                if last == 'flatten' and x.variant == 'None':
+                    return x
                 if last == 'unwrap_or_else' and x.variant == 'None':
                     # runs the closure (no argument); its result is the value
                     some = self.option_hof(m, f, t, 'map', Agg('core::option::Option', 'Some', [NOTHING_VAL]), args, unit_arg=True)
